@@ -59,6 +59,7 @@ CONF = {
             "parsers; conts / hook = Response.Resources of every container / of the pod in one request mode); distinct by "
             "content; non-trivial = at least the admit event",
     "assumptions": [
+        "ratios that are not exact in binary (1.15, 2.3, 4.35) are used only on amounts whose exact quotient is never an integer (limits 1000 / 2500 alone and in pairs), where float64 and exact arithmetic give the same ceiling; the container status list is in reverse spec order",
         "best-effort = label koordinator.sh/qosClass=BE, the only marking the API defines (GetQoSClassByAttrs receives the "
         "annotations but does not consult them; the validating webhook demands the label for batch resources): a pod carrying "
         "the key only as an annotation is a non-BE pod and must be left untouched",
